@@ -192,9 +192,20 @@ Definition burst_ok (attempts : nat) (decoded : list N) (own : list bool) (err :
 
 (** Shutdown with an already expired (or 1 ms) context while an export is in a retry loop against a collector
     that never recovers (long MaxElapsedTime, back-off <= 50 ms): Shutdown returns, the in-flight export
-    returns an error, the collector sees no request later than 1 s after Shutdown returned, and a later
+    returns an error, the collector sees no request later than 3 s after Shutdown returned, and a later
     Export fails. *)
 Definition shutdown_expired_ok (shutdown_returned export_returned : bool) (export_err : N)
                                (late_requests : nat) (later_err : N) : bool :=
   shutdown_returned && export_returned && negb (export_err =? 0)%N &&
   Nat.eqb late_requests 0 && negb (later_err =? 0)%N.
+
+(** The configured export timeout under option combinations (no headers / WithHeaders / OTEL_EXPORTER_OTLP_HEADERS),
+    caller context without a deadline, collector that never answers or keeps failing retry-ably: the export
+    returns an error no later than its bound (gRPC: the timeout, which covers the whole export; HTTP: the timeout
+    is per attempt, so MaxElapsedTime + one timeout) + 10 s, no request arrives later than 2 s after it returned,
+    and the configured headers are on every request that arrived.  An export that gave up in time without any
+    request having reached the collector (connection not ready on a slow machine) is correct behaviour; the
+    harness counts such a run as inconclusive for coverage. *)
+Definition timeout_ok (returned : bool) (err : N) (elapsed_ns bound_ns : Z) (late attempts : nat) (headers_ok : bool) : bool :=
+  returned && negb (err =? 0)%N && (elapsed_ns <=? bound_ns + 10 * NS_PER_S) &&
+  Nat.eqb late 0 && headers_ok.
